@@ -975,10 +975,39 @@ def f_corrcoef(x, y=None, rowvar=True, **kw):
 
 
 def f_round(a, decimals=0, out=None):
+    """np.round: exact on concrete values; on a symbolic value it is the
+    identity when the value provably has at most `decimals` decimals (over the
+    reals), otherwise unsupported."""
     arr = to_obj(a)
-    if has_sym(arr):
-        raise Unsupported("np.round on symbolic values")
-    return sa(np.round(np.array(arr.tolist(), dtype=float), decimals))
+    if not has_sym(arr):
+        if arr.size == 0:
+            return sa(arr.copy())
+        return sa(np.round(np.array(arr.tolist(), dtype=float), decimals))
+    _used("round(x, d) = x when x*10^d is provably integral")
+    res = np.empty(arr.shape, dtype=object)
+    rf, af = res.reshape(-1), arr.reshape(-1)
+    scale = 10 ** decimals
+    for i in builtins_range(af.shape[0]):
+        e = af[i]
+        if not is_sym(e):
+            rf[i] = float(np.round(e, decimals))
+            continue
+        x = V.lift(e)
+        scaled = x.val * scale
+        integral = V.mkbool(V._fold(z3.simplify(z3.ToReal(z3.ToInt(scaled)) == scaled)))
+        ctx = core.current()
+        # must hold on the whole path: proven, not branched on
+        ob_ok = integral is True
+        if not ob_ok:
+            ctx.solver.push()
+            ctx.solver.add(z3.Not(integral.e))
+            r = ctx._check()
+            ctx.solver.pop()
+            ob_ok = (r == z3.unsat)
+        if not ob_ok:
+            raise Unsupported("np.round of a symbolic value that may need rounding")
+        rf[i] = e
+    return res.view(SymArray)
 
 
 def f_array_equal(a1, a2, equal_nan=False):
@@ -1253,10 +1282,31 @@ def _c_linspace(start, stop, num=50, endpoint=True, **kw):
     return sa(out)
 
 
+ARANGE_UNWIND = 12
+
+
 def _c_arange(*args, **kw):
-    if has_sym(list(args)):
-        raise Unsupported("arange with symbolic arguments (model in harness)")
-    return sa(np.arange(*args, **kw))
+    if not has_sym(list(args)):
+        return sa(np.arange(*args, **kw))
+    _used("arange(start, stop, step) on symbolic arguments: length decided by forking, unwinding bound %d" % ARANGE_UNWIND)
+    if kw or len(args) != 3:
+        raise Unsupported("arange form")
+    start, stop, step = args
+    if bool(step == 0):
+        raise ZeroDivisionError("division by zero")
+    out = []
+    pos = bool(step > 0)
+    i = 0
+    while True:
+        v = start + i * step
+        inside = (v < stop) if pos else (v > stop)
+        if not bool(inside):
+            break
+        out.append(v)
+        i += 1
+        if i > ARANGE_UNWIND:
+            raise core.BoundExceeded("np.arange longer than %d elements" % ARANGE_UNWIND)
+    return sa(out)
 
 
 _CONSTRUCTORS = {
